@@ -350,3 +350,50 @@ func ruleQ3(c *Ctx) *RuleResult {
 	r.Instances = n
 	return r
 }
+
+func init() {
+	registerRule("Q4", "only the leading track moves the threshold: in the function that requests rotateParts every call that may store the threshold is control dependent on the track's isLeading flag (a rendition's sample durations would change the part length in the middle of a segment although the leading track is perfectly regular)", ruleQ4)
+}
+
+func ruleQ4(c *Ctx) *RuleResult {
+	r := &RuleResult{Floor: 1, FloorWhat: "adjustments of the part-switch threshold"}
+	pss, prob := c.partSwitches()
+	if prob != "" {
+		r.undecided("%s", prob)
+		return r
+	}
+	isLeadingF := c.Field("", "muxerTrack", "isLeading")
+	if isLeadingF == nil {
+		r.undecided("muxerTrack.isLeading not found")
+		return r
+	}
+	n := 0
+	seenFn := map[*ssa.Function]bool{}
+	for _, ps := range pss {
+		if ps.threshold == nil || seenFn[ps.fn] {
+			continue
+		}
+		seenFn[ps.fn] = true
+		storers := c.storersOf(ps.threshold)
+		conds := ifsOnV(ps.fn, func(v ssa.Value) bool {
+			f, _ := loadedField(v)
+			return f == isLeadingF
+		})
+		allInstrs(ps.fn, func(in ssa.Instruction) {
+			call, ok := in.(*ssa.Call)
+			if !ok || !storers[call.Call.StaticCallee()] {
+				return
+			}
+			n++
+			key := fmt.Sprintf("%s|adjust#%d|leading-only", FuncName(ps.fn), n)
+			what := "with a constant sample duration of the leading track every non-final part has the same length, whatever the other tracks carry"
+			if len(conds) > 0 && onlyIf(ps.fn, call, conds, true) {
+				r.ok(key, c.Pos(call.Pos()), FuncName(ps.fn), what, "control dependent on track.isLeading")
+			} else {
+				r.fail(key, c.Pos(call.Pos()), FuncName(ps.fn), what, "the threshold is adjusted for every track: an audio rendition whose access-unit duration is not compatible with the current part duration changes it mid-segment (parts of 66.7 ms followed by parts of 133.3 ms, PART-TARGET changes)")
+			}
+		})
+	}
+	r.Instances = n
+	return r
+}
